@@ -1266,6 +1266,16 @@ def _same_collection(a, b):
 
 def mk_elemat(coll, i):
     # `for i in 0..x.len() { .. x[i] .. }` visits each element of x in order, like `for e in x`; from 1: like `x.iter().skip(1)`
+    # `x[x.len() - 1 - i]` under `for i in 0..x.len()` (or a zip-like bound that includes x): the elements of x from the back
+    if i.tag == 'binop' and i[1] == 'Sub' and CURRENT is not None:
+        a, b = i[2], i[3]
+        if a.tag == 'binop' and a[1] == 'Sub' and a[3].tag == 'const' and a[3][1] == 1 and a[2].tag == 'call' and a[2][1].split('::')[-1] == 'len' \
+                and len(a[2][2]) == 1 and _same_collection(a[2][2][0], coll) and b.tag == 'index':
+            view = index_view(b[1]) if b[1].tag == 'range' else b[1]
+            if view is not None and view.tag != 'range':
+                ok, skip = _view_component(view, coll)
+                if ok and not skip:
+                    return mk_via('rev', mk_elem(CURRENT, coll))
     if i.tag == 'index' and CURRENT is not None:
         view = index_view(i[1]) if i[1].tag == 'range' else i[1]
         if view is not None and view.tag != 'range':
